@@ -84,3 +84,68 @@ def hexOfBytes (bs : List UInt8) : String :=
   String.ofList (bs.flatMap (fun b => [hexDigit (b.toNat / 16), hexDigit (b.toNat % 16)]))
 
 end BlochVerif
+
+namespace BlochVerif
+
+/-- largest `X` with `10^X ≤ num/den` (for positive `num/den`), searched from a safe lower bound -/
+def decExponent (num den : Nat) : Int :=
+  -- num/den > 0.  Use digit counts for a first guess, then adjust.
+  let guess : Int := (Nat.log2 num : Int) * 30103 / 100000 - (Nat.log2 den : Int) * 30103 / 100000 - 2
+  let rec up (fuel : Nat) (x : Int) : Int :=
+    match fuel with
+    | 0 => x
+    | fuel + 1 =>
+      -- is 10^(x+1) ≤ num/den ?
+      let ok : Bool :=
+        if x + 1 ≥ 0 then decide (den * 10 ^ (x + 1).toNat ≤ num)
+        else decide (den ≤ num * 10 ^ (-(x + 1)).toNat)
+      if ok then up fuel (x + 1) else x
+  up 8 guess
+
+/-- `printf("%.{p-1}e")`-style rounding: returns (digits as a Nat with exactly p digits, exponent) -/
+def roundSig (num den : Nat) (p : Nat) : Nat × Int :=
+  let x := decExponent num den
+  -- scaled = value * 10^(p-1-x)
+  let s : Int := (p : Int) - 1 - x
+  let (n2, d2) := if s ≥ 0 then (num * 10 ^ s.toNat, den) else (num, den * 10 ^ (-s).toNat)
+  let m := divRoundHalfEven n2 d2
+  if m ≥ 10 ^ p then (m / 10, x + 1) else (m, x)
+
+def stripTrailingZeros (s : String) : String :=
+  if s.contains '.' then
+    let t := s.toList.reverse.dropWhile (· == '0')
+    let t := match t with | '.' :: r => r | r => r
+    String.ofList t.reverse
+  else s
+
+/-- `std::ostream << double` with default flags (`%g`, precision 6) -/
+def fmtG6Bits (bits : UInt64) : String :=
+  match decodeDouble bits with
+  | none =>
+    let b := bits.toNat
+    (if b >>> 63 == 1 then "-" else "") ++ (if b &&& 0xFFFFFFFFFFFFF == 0 then "inf" else "nan")
+  | some (sign, m, e) =>
+    let sg := if sign then "-" else ""
+    if m == 0 then sg ++ "0"
+    else
+      let (num, den) := if e ≥ 0 then (m * 2 ^ e.toNat, 1) else (m, 2 ^ (-e).toNat)
+      let p := 6
+      let (digits, x) := roundSig num den p
+      let ds := padLeft (toString digits) p '0'
+      if x < -4 || x ≥ (p : Int) then
+        -- scientific: d.ddddde±XX
+        let mant := stripTrailingZeros (String.ofList [ds.toList.head!] ++ "." ++ String.ofList (ds.toList.drop 1))
+        let ex := x.natAbs
+        sg ++ mant ++ "e" ++ (if x < 0 then "-" else "+") ++ padLeft (toString ex) 2 '0'
+      else if x ≥ 0 then
+        let k := x.toNat + 1
+        let ip := String.ofList (ds.toList.take k)
+        let fp := String.ofList (ds.toList.drop k)
+        sg ++ stripTrailingZeros (if fp.isEmpty then ip else ip ++ "." ++ fp)
+      else
+        let zeros := String.ofList (List.replicate (x.natAbs - 1) '0')
+        sg ++ stripTrailingZeros ("0." ++ zeros ++ ds)
+
+def fmtG6 (x : Float) : String := fmtG6Bits x.toBits
+
+end BlochVerif
